@@ -721,8 +721,9 @@ def attribute(ctx, items, recs):
     reps = []
     for sig in order[:MAX_GROUPS]:
         g = groups[sig]
+        # the shortest chain, then chains of other processes - one of an exported session first (its history is the same in every run)
         chosen, procs = [g[0]], {byid[g[0][3]]["proc"]}
-        for it in g[1:]:
+        for it in sorted(g[1:], key=lambda x: not byid[x[3]]["proc"].startswith("S")):
             if len(chosen) >= REPS:
                 break
             if byid[it[3]]["proc"] not in procs:
@@ -757,7 +758,7 @@ def attribute(ctx, items, recs):
             c = it[2]
             ssig = session_signature(c["entry"], c["clause"])
             t = targets.setdefault(ssig, {"n": 0, "best": None, "sigs": set()})
-            key = (byid[it[3]]["seq"], it[3])
+            key = (not byid[it[3]]["proc"].startswith("S"), byid[it[3]]["seq"], it[3])
             if t["best"] is None or key < t["best"][0]:
                 t["best"] = (key, it)
         # (all representatives of the group share entry and clause)
